@@ -1,1 +1,246 @@
-/- C07: property theorems (not yet built). -/
+/- C07 — Imports resolve, load and evaluate as specified.
+   Property theorems only (definitions in Model/Import.lean, lemmas in Proofs/Import.lean).
+
+   Part 1 quantifies over every probe function (what the OS answers for each candidate path), every
+   importer directory, search path and spelling.  Part 2 quantifies over EVERY history of the file
+   cache machine (`run init evs` for an arbitrary event list, including ill-nested ones); the
+   interpreter used for the correspondence run can only move the machine through `step`
+   (`Run.ok`), so its states are such histories.  `valid` (UTF-8 validity) is a parameter. -/
+import JrsVerif.Proofs.Import
+
+namespace JrsVerif.Import
+
+/-! ## 1. resolution order -/
+
+/-- the search is exactly "first candidate whose probe is not `missing` decides" -/
+theorem resolve_eq_findSome (probe : Path → Probe) (dir : Path) (jpaths : List Path) (sp : Spelling) :
+    resolve probe dir jpaths sp =
+      ((candidates dir jpaths sp).findSome? (fun c => verdict (probe c))).getD (.error .notfound) :=
+  firstHit_eq_findSome probe _
+
+/-- C07.1a a regular file at a candidate wins iff every earlier candidate is missing -/
+theorem resolve_first_match (probe : Path → Probe) (dir : Path) (jpaths : List Path) (sp : Spelling)
+    (pre post : List Path) (c q : Path) (hc : candidates dir jpaths sp = pre ++ c :: post)
+    (hpre : ∀ x ∈ pre, probe x = .missing) (hq : probe c = .file q) :
+    resolve probe dir jpaths sp = .ok q := by
+  unfold resolve
+  rw [hc, firstHit_skip probe pre _ hpre]
+  simp [firstHit, hq]
+
+/-- C07.1c nothing matches  <->  "can't resolve" -/
+theorem resolve_none_is_error (probe : Path → Probe) (dir : Path) (jpaths : List Path) (sp : Spelling) :
+    resolve probe dir jpaths sp = .error .notfound ↔
+      ∀ c ∈ candidates dir jpaths sp, probe c = .missing :=
+  firstHit_notfound_iff probe _
+
+/-- C07.1b the importer's directory beats every library path -/
+theorem resolve_importer_dir_first (probe : Path → Probe) (dir : Path) (jpaths : List Path)
+    (sp : Spelling) (q : Path) (h : probe (push dir sp) = .file q) :
+    resolve probe dir jpaths sp = .ok q := by
+  simp [resolve, candidates, firstHit, h]
+
+/-- C07.1b right-most `-J` first: a flag's directory wins over every flag to its LEFT and over
+    every `JSONNET_PATH` entry as soon as the importer directory and all flags to its RIGHT miss -/
+theorem resolve_rightmost_J_first (probe : Path → Probe) (dir : Path) (l r env : List Path)
+    (j : Path) (sp : Spelling) (q : Path) (hdir : probe (push dir sp) = .missing)
+    (hr : ∀ x ∈ r, probe (push x sp) = .missing) (hj : probe (push j sp) = .file q) :
+    resolve probe dir (searchPath (l ++ j :: r) env) sp = .ok q := by
+  apply resolve_first_match probe dir _ sp (push dir sp :: r.reverse.map (fun x => push x sp))
+    ((l.reverse ++ env).map (fun x => push x sp)) (push j sp) q
+  · simp [candidates, searchPath, List.map_append]
+  · intro x hx
+    simp only [List.mem_cons, List.mem_map, List.mem_reverse] at hx
+    rcases hx with rfl | ⟨y, hy, rfl⟩
+    · exact hdir
+    · exact hr y hy
+  · exact hj
+
+/-- C07.1b `JSONNET_PATH` entries come after all `-J` flags, in the order given -/
+theorem resolve_env_after_flags (probe : Path → Probe) (dir : Path) (jflags pre post : List Path)
+    (e : Path) (sp : Spelling) (q : Path) (hdir : probe (push dir sp) = .missing)
+    (hflags : ∀ x ∈ jflags, probe (push x sp) = .missing)
+    (hpre : ∀ x ∈ pre, probe (push x sp) = .missing) (he : probe (push e sp) = .file q) :
+    resolve probe dir (searchPath jflags (pre ++ e :: post)) sp = .ok q := by
+  apply resolve_first_match probe dir _ sp
+    (push dir sp :: (jflags.reverse ++ pre).map (fun x => push x sp))
+    (post.map (fun x => push x sp)) (push e sp) q
+  · simp [candidates, searchPath, List.map_append]
+  · intro x hx
+    simp only [List.mem_cons, List.mem_map, List.mem_append, List.mem_reverse] at hx
+    rcases hx with rfl | ⟨y, hy | hy, rfl⟩
+    · exact hdir
+    · exact hflags y hy
+    · exact hpre y hy
+  · exact he
+
+/-- non-vacuity: J2 given after J1 on the command line wins, although J1 and the environment
+    directory also hold the file -/
+example :
+    let probe : Path → Probe := fun p =>
+      if p = ["J1", "a"] ∨ p = ["J2", "a"] ∨ p = ["E", "a"] then .file p else .missing
+    resolve probe ["d"] (searchPath [["J1"], ["J2"]] [["E"]]) ⟨false, ["a"]⟩ = .ok ["J2", "a"] := by
+  intro probe
+  exact resolve_rightmost_J_first probe ["d"] [["J1"]] [] [["E"]] ["J2"] ⟨false, ["a"]⟩ _
+    (by decide) (by simp) (by decide)
+
+/-! ## 2. the file cache, for all histories -/
+
+section
+variable (valid : Bytes → Bool)
+
+/-- C07.3 `flag_reset`: whenever no import is in progress, no `evaluating` flag is set — after
+    successes and after errors alike (any history) -/
+theorem flag_reset (evs : List Ev) (h : (run valid init evs).1.stack = []) (p : Path) :
+    flag ((run valid init evs).1.cache p) = false := by
+  have hinv := reachable_inv valid evs
+  have := hinv.flags p
+  rw [h] at this
+  cases hf : flag ((run valid init evs).1.cache p) with
+  | false => rfl
+  | true => exact absurd (this.mpr hf) (by simp)
+
+/-- ... and conversely the flag is set for exactly the files under evaluation, each once -/
+theorem flag_iff_in_progress (evs : List Ev) (p : Path) :
+    p ∈ (run valid init evs).1.stack ↔ flag ((run valid init evs).1.cache p) = true :=
+  (reachable_inv valid evs).flags p
+
+/-- C07.3 `cycle_detected`: importing a file that is being evaluated is an infinite-recursion
+    error; nothing is loaded and the state is not changed -/
+theorem cycle_detected (evs : List Ev) (p : Path) (hp : p ∈ (run valid init evs).1.stack)
+    (ld : LoadRes) (pk : Bool) :
+    step valid (run valid init evs).1 (.begin p ld pk) =
+      ((run valid init evs).1, ⟨false, .err .infrec⟩) :=
+  begin_on_stack valid (reachable_inv valid evs) hp ld pk
+
+/-- C07.2 `load_at_most_once`: in every history, the loader runs for a path at most once more
+    than it failed for it (loader error or bytes rejected as non-UTF-8) -/
+theorem load_at_most_once (evs : List Ev) (p : Path) :
+    (trace valid init evs).countP (isLoad p) ≤ 1 + (trace valid init evs).countP (isFailedLoad p) :=
+  loads_le valid (init_inv valid) p evs
+
+/-- once a path's cell is occupied the loader is never asked for it again -/
+theorem no_load_once_cached (evs evs' : List Ev) (p : Path)
+    (h : (run valid init evs).1.cache p ≠ none) :
+    (trace valid (run valid init evs).1 evs').countP (isLoad p) = 0 :=
+  occupied_no_load valid (reachable_inv valid evs) p h evs'
+
+/-- C07.2 `eval_at_most_once`: in every history at most one evaluation of a file completes with
+    a value -/
+theorem eval_at_most_once (evs : List Ev) (p : Path) :
+    (trace valid init evs).countP (isEvalOk p) ≤ 1 :=
+  evals_le valid (init_inv valid) p evs
+
+/-- once a file has a value, every later `import` of it — after any further history, whatever the
+    loader or parser would answer now — returns that value, loads nothing and changes nothing -/
+theorem cached_value_forever (evs evs' : List Ev) (p : Path) (c : Cell) (v : Nat)
+    (hc : (run valid init evs).1.cache p = some c) (hv : c.evaluated = some v)
+    (ld : LoadRes) (pk : Bool) :
+    let s := (run valid (run valid init evs).1 evs').1
+    step valid s (.begin p ld pk) = (s, ⟨false, .val v⟩) := by
+  intro s
+  obtain ⟨c', h1, h2⟩ := evaluated_stable_run valid (reachable_inv valid evs) hc hv evs'
+  exact begin_cached valid s h1 h2 ld pk
+
+/-- C07.2 `str_bin_exact`: once a path has been loaded with bytes `b`, every later `importbin`
+    returns exactly `b` and every later `importstr` returns exactly `b` (or the UTF-8 error when `b`
+    is not valid UTF-8), whatever happened in between and whatever the loader would answer now -/
+theorem str_bin_exact (evs mid : List Ev) (p : Path) (b : Bytes) (first : Ev)
+    (hvac : (run valid init evs).1.cache p = none)
+    (hfirst : first = .str p (.ok b) ∨ first = .bin p (.ok b) ∨ ∃ pk, first = .begin p (.ok b) pk)
+    (hocc : (step valid (run valid init evs).1 first).1.cache p ≠ none) (ld : LoadRes) :
+    let s := (run valid (step valid (run valid init evs).1 first).1 mid).1
+    (step valid s (.bin p ld)).2 = ⟨false, .binVal b⟩ ∧
+      (step valid s (.str p ld)).2 = ⟨false, if valid b then .strVal b else .err .utf8⟩ := by
+  intro s
+  have hinv0 := reachable_inv valid evs
+  have hinv1 := step_inv valid hinv0 first
+  cases hc : (step valid (run valid init evs).1 first).1.cache p with
+  | none => exact absurd hc hocc
+  | some c =>
+    have hcont := load_content valid hvac hfirst hc
+    obtain ⟨c', h1, h2⟩ := content_stable_run valid hinv1 hc mid
+    have hinv2 := run_inv valid hinv1 mid
+    exact ⟨bin_exact valid hinv2 h1 (by rw [h2, hcont]) ld,
+           str_exact valid hinv2 h1 (by rw [h2, hcont]) ld⟩
+
+/-- C07.3 `usable_after_fault` (frame): after ANY history that has come to rest, operations on
+    paths whose cells are vacant produce exactly the outputs they produce in a fresh state -/
+theorem usable_after_fault (evs evs' : List Ev) (hq : (run valid init evs).1.stack = [])
+    (hvac : ∀ p ∈ evPaths evs', (run valid init evs).1.cache p = none) :
+    (run valid (run valid init evs).1 evs').2 = (run valid init evs').2 := by
+  refine (run_agree valid (P := fun p => p ∈ evPaths evs') ⟨?_, ?_, ?_⟩ evs' (fun p hp => hp)).1
+  · rw [hq]; rfl
+  · rw [hq]; simp
+  · intro p hp; rw [hvac p hp]; rfl
+
+/-- C07.3 `retry_after_clear`: an operation whose load failed (resolver fault, missing or
+    unreadable file, bytes that are not UTF-8 where text is required) leaves the state EQUAL to the
+    state before it — so a retry behaves as if the failed attempt had never happened -/
+theorem retry_after_clear (evs : List Ev) (ev : Ev)
+    (hl : (step valid (run valid init evs).1 ev).2.loaded = true)
+    (hf : failOut (step valid (run valid init evs).1 ev).2.out = true) :
+    (step valid (run valid init evs).1 ev).1 = (run valid init evs).1 :=
+  failed_load_no_trace valid (reachable_inv valid evs) ev hl hf
+
+/-- the two `expect`/`unreachable!` sites of the Rust code are never hit -/
+theorem no_panic (evs : List Ev) (ev : Ev) :
+    (step valid (run valid init evs).1 ev).2.out ≠ .err .panic :=
+  step_no_panic valid (reachable_inv valid evs) ev
+
+/-- every import the interpreter starts it also finishes: a top-level operation started at rest
+    ends at rest, with no `evaluating` flag left behind — whether it returned a value or an error,
+    with or without an injected fault -/
+theorem op_quiescent (w : World) (dir : Path) (r : Run w.valid) (op : Op)
+    (h : r.st.stack = []) :
+    (runOp w dir r op).1.st.stack = [] ∧
+      ∀ p, flag ((runOp w dir r op).1.st.cache p) = false := by
+  have hstack : (runOp w dir r op).1.st.stack = [] := by
+    unfold runOp
+    simp only
+    rcases hR : doResolve w op.fault { r with calls := 0, log := [] } ("d:" ++ showPath dir) dir op.sp
+      with ⟨r1, res1⟩
+    have h0 : r1.st = r.st := by
+      have := doResolve_st w op.fault { r with calls := 0, log := [] } ("d:" ++ showPath dir) dir op.sp
+      rw [hR] at this; exact this
+    cases res1 with
+    | error e => simp only; rw [h0, h]
+    | ok p =>
+      simp only
+      have h1 := (eval_stack w op.fault fuelTop).2 r1 p op.kind
+      rcases hI : importAs w op.fault fuelTop r1 p op.kind with ⟨r2, res2⟩
+      rw [hI] at h1
+      simp only at h1
+      cases res2 with
+      | error e => simp only; rw [h1, h0, h]
+      | ok vb => cases op.kind <;> (simp only; rw [h1, h0, h])
+  refine ⟨hstack, fun p => ?_⟩
+  have hinv := (runOp w dir r op).1.inv
+  cases hf : flag ((runOp w dir r op).1.st.cache p) with
+  | false => rfl
+  | true => exact absurd ((hinv.flags p).mpr hf) (by rw [hstack]; simp)
+
+end
+
+/-! non-vacuity of the history theorems: a concrete history with a failed load, a retry, a cycle
+    attempt and a completed evaluation -/
+example :
+    let v : Bytes → Bool := fun b => !b.contains 255
+    let evs : List Ev :=
+      [.begin ["a"] (.err "io") true,            -- fault: nothing cached
+       .begin ["a"] (.ok [1]) true,              -- retry: loaded, entered
+       .str ["x"] (.ok [255]),                   -- not UTF-8: rejected, not cached
+       .bin ["x"] (.ok [255]),                   -- loaded again, cached
+       .begin ["a"] (.ok [9]) true,              -- cycle: infrec, no load
+       .finish (some 7),
+       .begin ["a"] (.err "io") true]            -- cached value, loader not consulted
+    (run v init evs).2.map (·.out) =
+      [.err (.load "io"), .entered, .err .utf8, .binVal [255], .err .infrec,
+       .finished ["a"] (some 7), .val 7] ∧
+    (trace v init evs).countP (isLoad ["a"]) = 2 ∧
+    (trace v init evs).countP (isFailedLoad ["a"]) = 1 ∧
+    (trace v init evs).countP (isLoad ["x"]) = 2 ∧
+    (trace v init evs).countP (isEvalOk ["a"]) = 1 ∧
+    (run v init evs).1.stack = [] := by
+  decide
+
+end JrsVerif.Import
